@@ -63,7 +63,7 @@ def preload():
     import msdm.domains.cliffwalking, msdm.domains.tiger, msdm.domains.loadunload, msdm.domains.heavenorhell  # noqa
 
 
-ENVS = ('prior', 'midrun', 'midrun', 'reuse', 'warm', 'abort', 'unpatched')
+ENVS = ('prior', 'midrun', 'midrun', 'reuse', 'warm', 'abort', 'unpatched', 'twin')
 
 
 def gen_case(rng, tier, idx):
@@ -72,8 +72,23 @@ def gen_case(rng, tier, idx):
     envs = [rng.choice(ENVS) for _ in range(k)]
     if not S.reusable(sc['component']):
         envs = [e if e != 'reuse' else 'prior' for e in envs]
+    if _twin_problem(sc) is None:
+        envs = [e if e != 'twin' else 'warm' for e in envs]
     return dict(kind='inproc', scenario=sc, envs=envs, inject_p=rng.choice((0.02, 0.1, 0.5)),
                 sched=dict(seed=f"sched:{rng.getrandbits(64)}", mode='P'))
+
+
+def _twin_problem(sc):
+    """The same problem with keys that compare equal to the original's but are of another type
+    (2.0 for 2, frozendict(s=2.0) for frozendict(s=2)): whatever the process remembers about the twin,
+    keyed by equality or identity, must not leak into the run on the original."""
+    p = sc['problem']
+    kind = (p.get('spec') or {}).get('kind')
+    if p.get('type') not in ('mdp', 'pomdp', 'graph') or kind not in ('int', 'fd'):
+        return None
+    q = copy.deepcopy(p)
+    q['spec']['kind'] = 'float' if kind == 'int' else 'fdf'
+    return q
 
 
 # ------------------------------------------------------------ global generators
@@ -209,7 +224,7 @@ def execute(case, script=None):
     comp = sc['component']
     ctx = RunCtx(PROP, None)
     ctx.CB_CAP = 10 ** 8
-    ctx.declare_probes('reference_ok', 'env_prior', 'env_midrun', 'env_reuse', 'env_warm', 'env_abort', 'env_unpatched', 'injections',
+    ctx.declare_probes('reference_ok', 'env_prior', 'env_midrun', 'env_reuse', 'env_warm', 'env_abort', 'env_unpatched', 'env_twin', 'injections',
                        'aborts_delivered', 'seed_zero', 'string_keys', 'shipped_domain', 'equally_seeded_pairs')
     sched = Scheduler(case['sched']['seed'], mode='P', cap=10 ** 9)
     ctx.sched = sched
@@ -274,6 +289,15 @@ def execute(case, script=None):
                 gset(6)
                 out, _, _ = _run(sc, ctx, sched, patched=False)
                 compare(out, 'unpatched-library')
+            elif envname == 'twin':
+                gset(4)
+                sched.fire('F5b_process_history')
+                try:
+                    _run(dict(sc, problem=_twin_problem(sc)), ctx, sched)      # fresh objects, only the process is shared
+                except Violation:
+                    raise
+                out, _, _ = _run(sc, ctx, sched)
+                compare(out, 'after-an-equal-keyed-twin-problem-in-the-same-process')
             elif envname == 'reuse':
                 gset(8)
                 sched.fire('F5_object_reuse')
@@ -366,13 +390,27 @@ def run_children(jobs, timeout=900):
 def xproc_scenario(seed, i):
     rng = _pyrandom.Random(f"{seed}:C13:xproc:{i}")
     # keys whose hash (or order) depends on the interpreter's hash seed: strings, tuples of strings, frozendicts
-    sc = S.gen_scenario(rng, component=S.COMPONENTS[i % len(S.COMPONENTS)], kinds=('str', 'tuple', 'fd', 'fd'))
+    sc = S.gen_scenario(rng, component=S.COMPONENTS[i % len(S.COMPONENTS)], kinds=('str', 'tuple', 'fd', 'fd', 'int'))
     return sc
 
 
 def _execute_xproc(case):
     sc = case['scenario']
     hs = case['hashseeds']
+    if case.get('twin'):
+        tw = dict(sc, problem=_twin_problem(sc))
+        outs = run_children([(hs[0], dict(scenarios=[sc])), (hs[0], dict(scenarios=[sc], pre={'0': tw}))])
+        ds = [o['0'] for o in outs]
+        ctx = RunCtx(PROP, None)
+        ctx.clauses += 1
+        if ds[0]['digest'] != ds[1]['digest']:
+            raise Violation('process-history', f"{sc['component']}: same problem, parameters and seed {sc['seed']} give a different result in an interpreter that "
+                            f"first ran an equal-keyed twin problem (keys of another type that compare equal): {_first_diff(ds[0]['result'], ds[1]['result'])}",
+                            dict(key=f"process-history/{sc['component']}/{_xkey(sc)}"))
+        out = ctx.result()
+        out['digest'] = digest_of([sc, hs, 'twin'])
+        out['nontrivial'] = True
+        return out
     outs = run_children([(h, dict(scenarios=[sc])) for h in hs])
     ctx = RunCtx(PROP, None)
     ctx.clauses += 1
@@ -406,16 +444,32 @@ def extra_phase(seed, tier, workers):
         hss = [0] + [rng.randrange(1, 2 ** 32) for _ in range(cfg['hashseeds'] - 1)]
         batches.append((idxs, scs, hss))
     # run up to `workers` children at a time
-    jobs = [(h, dict(scenarios=scs)) for (idxs, scs, hss) in batches for h in hss]
+    def twins(scs):
+        return {str(j): dict(sc, problem=_twin_problem(sc)) for j, sc in enumerate(scs) if _twin_problem(sc) is not None}
+    # per batch: one child per hash seed, plus one more under the first hash seed that runs each scenario's twin first
+    jobs = []
+    for (idxs, scs, hss) in batches:
+        jobs.extend((h, dict(scenarios=scs)) for h in hss)
+        jobs.append((hss[0], dict(scenarios=scs, pre=twins(scs))))
     outs = []
     for i in range(0, len(jobs), max(1, workers)):
         outs.extend(run_children(jobs[i:i + max(1, workers)]))
     k = 0
     for (idxs, scs, hss) in batches:
         per = outs[k:k + len(hss)]
-        k += len(hss)
+        twin_out = outs[k + len(hss)]
+        k += len(hss) + 1
         for j, (i, sc) in enumerate(zip(idxs, scs)):
             ds = [o[str(j)] for o in per]
+            if _twin_problem(sc) is not None:
+                tsumm = dict(index=f"xproc-twin:{i}", status='ok', digest=digest_of([sc, hss[0], 'twin']), nontrivial=True, wall=0.0, known=[],
+                             stats=dict(decisions=0, steps=0, fired={'F5b_process_history': 1}, probes={'xproc_twin_scenarios': 1}))
+                if twin_out[str(j)]['digest'] != ds[0]['digest']:
+                    tsumm.update(status='violation', clause='process-history', key=f"process-history/{sc['component']}/{_xkey(sc)}",
+                                 message=f"{sc['component']}: same problem, parameters and seed {sc['seed']} give a different result in an interpreter that first ran an "
+                                         f"equal-keyed twin problem: {_first_diff(ds[0]['result'], twin_out[str(j)]['result'])}",
+                                 case=dict(kind='xproc', twin=True, scenario=sc, hashseeds=[hss[0]], verif_seed=seed, index=f"xproc-twin:{i}"), script=None)
+                summaries.append(tsumm)
             summ = dict(index=f"xproc:{i}", status='ok', digest=digest_of([sc, hss]), nontrivial=True, wall=0.0, known=[],
                         stats=dict(decisions=0, steps=0, fired={'F4_hash_seed': len(hss)}, probes={'xproc_scenarios': 1,
                                    'xproc_string_or_domain': int(_xkey(sc) not in ('mdp-int', 'graph-int', 'pomdp-int', 'none-None'))}))
